@@ -576,9 +576,17 @@ def check(rep):
     rep.bounds.append(f"{N} citations at a time (pairs: equality/hash/resource agreement and the spec; triples in the thorough tier add transitivity); kinds {KINDS}; candidate editions from a pool of 2 with 7 exact/variation configurations; volume, page, reporter symbolic")
     rep.outside += ["that the extractor captures the three components of a normal-form text (the regex engines: C01's recognisability clauses); normal forms of shapes other than volume-reporter-page; years (guess_edition with a year is decided in C18)", "supra and reference citations (the property does not state their equality)"]
     rep.stubs += ["hash_sha256: injective (collision-free); id() values differ from digests and from each other", "context fields (metadata, year, spans, index) are poisoned: any read raises", "case citations optionally carry the other regex groups of the database's case extractors (year, reporter_nominative, volume_nominative) with arbitrary values"]
-    # quick: every case citation carries the extra regex groups (arbitrary values); thorough: with and without them
-    agg = common.explore_split("vf.harness.c16", {"N": N, "xg_choice": not quick}, depth=3 if quick else 4)
+    # every case citation carries the extra regex groups (arbitrary values); thorough adds pairs with and without them
+    agg = common.explore_split("vf.harness.c16", {"N": N, "xg_choice": False}, depth=3 if quick else 4)
     rep.merge_explore("equality", agg)
+    if not quick:
+        # pairs in which each case citation may or may not carry the extra groups (presence must not matter either)
+        aggx = common.explore_split("vf.harness.c16", {"N": 2, "xg_choice": True}, depth=3)
+        rep.merge_explore("equality_pairs_with_optional_extra_groups", aggx)
+        for k, v in aggx["verdicts"].items():
+            agg["verdicts"][k] = agg["verdicts"].get(k, 0) + v
+        agg["findings"] = agg["findings"] + aggx["findings"]
+        agg["paths"] += aggx["paths"]
     n_ob = sum(agg["verdicts"].values())
     n_ok = sum(v for k, v in agg["verdicts"].items() if k.endswith(":valid"))
     rep.oblige(n_ok)
